@@ -609,6 +609,9 @@ HAND_DOCS = [
     "%ABCDEFGHIJKLMNOPQRSTUVWXYZABCDEFG% and %% and 100% {2} `%`\n\n# T for 2\n",
     "# Spam to make 12\n\n{0} {0.0} {1/3} {2 1/3} {10.5} {99999999999999999999}\n",
     "# Tab\tserves\t 7  \n",
+    # a literal "<" or &lt; in a plain title is text: title header and servings as usual
+    "# Beans < Peas\n", "# Cakes < 5 mins for 4\n\n{2} eggs\n", "Beans < Peas\n===\n", "Cakes &lt; 5 mins serves 4\n=====\n\n    1 egg\n",
+    "# Tea &lt; coffee to make 3 #\n", "# a &#60; b\n",
     # empty first headings: the title is "" (not None)
     "#\n", "# #\n", "#   \n\ntext {2}\n\n    1 egg\n", "# \n\n# Second for 2\n", "##\n\n#\n",
     # fence tags that merely contain the word recipe
